@@ -333,10 +333,20 @@ func (m *Sim) Settle() {
 	if MaxRunLife > 0 && m.LifeLimited && time.Since(m.Start) > MaxRunLife {
 		panic(fmt.Sprintf("harness: run used %v of simulated time, the test build of the repo panics after 120s of life per node", time.Since(m.Start)))
 	}
-	for {
+	for releases := 0; ; releases++ {
 		synctest.Wait()
 		m.S.steps.Add(1)
 		progress.Add(1)
+		if releases == MaxSettleReleases {
+			site := "unknown"
+			if n := len(m.ReleaseLog); n > 0 {
+				site = m.ReleaseLog[n-1]
+				if i := strings.Index(site, "@"); i >= 0 {
+					site = site[i+1:]
+				}
+			}
+			m.Fail(m.Prop+".stuck", "loop@"+site, "the system passed %d yield points at one instant of simulated time without coming to rest (last: %s): a loop that never ends (phase %s)", releases, site, m.Phase)
+		}
 		if m.deferred != nil {
 			panic(m.deferred)
 		}
@@ -405,6 +415,11 @@ func (m *Sim) Go(name string, fn func()) *Task {
 // MaxRunLife bounds the simulated duration of a run (0 = unbounded). The test
 // build of the repository panics when a server or client lives for 120 s.
 var MaxRunLife time.Duration
+
+// MaxSettleReleases bounds how many parked goroutines one Settle (one instant
+// of simulated time) releases: a loop that passes yield points for ever makes
+// "progress" for the watchdog but never reaches quiescence.
+var MaxSettleReleases = 5000
 
 // MaxTaskWait bounds the simulated time a single operation may take.
 var MaxTaskWait = 10 * time.Minute
